@@ -140,6 +140,15 @@ def chain_docs(tier):
                 gref = lambda i: (h if sel(i) else "#{}").format(f"g{(i + 1) % L}")
                 gr = "".join(f'<linearGradient id="g{i}" xlink:href="{gref(i)}"/>' for i in range(L))
                 docs.append(("spelled-gradient-cycle", f'<svg {NS} viewBox="0 0 100 100"><defs>{gr}</defs><rect width="80" height="80" fill="url(#g0)" transform="translate(1 1)"/></svg>'))
+            # SVG 2 spelling: a plain href attribute instead of xlink:href on the selected link(s)
+            att = lambda i: "href" if sel(i) else "xlink:href"
+            cyc = "".join(f'<use id="u{i}" {att(i)}="#u{(i + 1) % L}" x="1"/>' for i in range(L))
+            docs.append(("plainhref-use-cycle", f'<svg {NS} viewBox="0 0 100 100"><defs>{cyc}</defs><use xlink:href="#u0"/></svg>'))
+            cyc = "".join(f'<g id="u{i}"><rect width="2" height="2"/>' + f'<use {att(i)}="#u{(i + 1) % L}" x="1"/>' * 2 + "</g>" for i in range(L))
+            docs.append(("plainhref-branching-use-cycle", f'<svg {NS} viewBox="0 0 100 100"><defs>{cyc}</defs><use xlink:href="#u0"/></svg>'))
+            docs.append(("plainhref-branching-use-cycle", f'<svg {NS} viewBox="0 0 100 100"><defs>{cyc}</defs><use href="#u0"/></svg>'))
+            gr = "".join(f'<linearGradient id="g{i}" {att(i)}="#g{(i + 1) % L}"/>' for i in range(L))
+            docs.append(("plainhref-gradient-cycle", f'<svg {NS} viewBox="0 0 100 100"><defs>{gr}</defs><rect width="80" height="80" fill="url(#g0)" transform="translate(1 1)"/></svg>'))
             for u in US:
                 cref = lambda i: (u if sel(i) else "url(#{})").format(f"c{(i + 1) % L}")
                 cl = "".join(f'<clipPath id="c{i}" clip-path="{cref(i)}"><rect width="{50 - i}" height="50"/></clipPath>' for i in range(L))
@@ -151,7 +160,7 @@ def chain_docs(tier):
     return docs
 
 
-BADVALS = ["", "abc", "1e999", "nan", "10px", "50%", "1,2", "-1", "  3  "]
+BADVALS = ["", "abc", "1e999", "nan", "10px", "50%", "1,2", "-1", "  3  ", "1e999%", "nan%", "-inf%", "1e-999", "0x10", "+5", ".", "1e", "--1"]
 NUMATTRS = [
     ("rect", 'x="1" y="1" width="10" height="10" rx="2" ry="2"', ["x", "y", "width", "height", "rx", "ry"]),
     ("circle", 'cx="5" cy="5" r="4"', ["cx", "cy", "r"]),
